@@ -20,7 +20,7 @@ Qed.
 Print Assumptions json_decode_source_reports.
 
 (* ... and a source without ammo ends the provider whatever passes and limit say *)
-Theorem json_decode_source_no_ammo_terminates : forall passes limit nonempty fuel,
-  jd_passes (S fuel) gen_jd_variant passes limit 0 nonempty 0 0 0 = (JdNil, 0).
+Theorem json_decode_source_no_ammo_terminates : forall passes limit pend nonempty fuel,
+  jd_passes (S fuel) gen_jd_variant passes limit 0 pend nonempty 0 0 0 = (JdNil, 0).
 Proof. intros. apply jd_passes_no_ammo_ends. reflexivity. Qed.
 Print Assumptions json_decode_source_no_ammo_terminates.
